@@ -127,7 +127,124 @@ theorem decode_total :
     | none => exact Or.inl rfl
     | some p => exact Or.inr ⟨p.1, p.2, rfl⟩
 
+/-! ## truncation, injectivity, canonical forms, wire stability -/
+
+/-- **prefix_rejected**: MessagePack is prefix-free on well-formed values — no strict prefix of `encode v` decodes
+(not even to some other value), so a short read can never be mistaken for a complete value. -/
+theorem prefix_rejected (v : Val) (hw : WellFormed v) (n : Nat) (hn : n < (encode v).length) :
+    decode ((encode v).take n) = none :=
+  SafeNet.MsgPack.prefix_rejected v hw n hn
+
+/-- **truncated records are errors**: every strict prefix of `try_serialize_record x kind` is rejected by
+`try_deserialize_record` (which skips `RecordHeader::SIZE` bytes and decodes the rest, ignoring trailing bytes). -/
+theorem truncated_record_rejected (k : RecordKind) (v : Val) (hw : WellFormed v) (n : Nat)
+    (hn : n < (trySerializeRecord v k).length) :
+    tryDeserializeRecord ((trySerializeRecord v k).take n) = none := by
+  have h2 := (header_two_bytes k).2
+  unfold trySerializeRecord at hn ⊢
+  rw [List.length_append] at hn
+  unfold tryDeserializeRecord
+  by_cases hle : n ≤ headerSize
+  · rw [if_neg (by rw [List.length_take]; omega)]
+  · rw [if_pos (by rw [List.length_take, List.length_append]; omega)]
+    rw [List.take_append, List.take_of_length_le (by omega), List.drop_append_of_le_length (by omega),
+      List.drop_of_length_le (by omega), List.nil_append, h2,
+      SafeNet.MsgPack.prefix_rejected v hw (n - headerSize) (by omega)]
+    rfl
+
+/-- typed form: a truncated record of any value of any described type is rejected -/
+theorem truncated_record_rejected_typed (k : RecordKind) (t : Tree) (hw : treeWf t = true) (n : Nat)
+    (hn : n < (trySerializeRecord (toVal t) k).length) :
+    tryDeserializeRecord ((trySerializeRecord (toVal t) k).take n) = none :=
+  truncated_record_rejected k (toVal t) (toVal_wf t hw) n hn
+
+/-- **encode_injective**: different well-formed values never share an encoding — even when followed by other bytes. -/
+theorem encode_injective (v w : Val) (hv : WellFormed v) (hw : WellFormed w) (h : encode v = encode w) : v = w :=
+  SafeNet.MsgPack.encode_injective v w hv hw h
+
+theorem encode_append_injective (v w : Val) (r s : List Nat) (hv : WellFormed v) (hw : WellFormed w)
+    (h : encode v ++ r = encode w ++ s) : v = w ∧ r = s :=
+  SafeNet.MsgPack.encode_append_injective v w r s hv hw h
+
+/-- the typed embedding is injective too: two values of one type with the same record bytes are equal -/
+theorem record_bytes_injective (k : RecordKind) (s : Schema) (t t' : Tree) (hs : schemaOk s = true)
+    (hc : conforms s t = true) (hc' : conforms s t' = true) (hw : treeWf t = true) (hw' : treeWf t' = true)
+    (h : trySerializeRecord (toVal t) k = trySerializeRecord (toVal t') k) : t = t' := by
+  have e : toVal t = toVal t' :=
+    SafeNet.MsgPack.encode_injective _ _ (toVal_wf t hw) (toVal_wf t' hw') (List.append_cancel_left h)
+  have a := ofVal_toVal s t hs hc
+  rw [e, ofVal_toVal s t' hs hc'] at a
+  exact (Option.some.inj a).symm
+
+/-- The full converse "whatever decodes to `v` with nothing left is `encode v`" — stated, and FALSE of this decoder
+(as of `rmp`): every integer and length width is accepted and normalised. -/
+def DecodeOnlyCanonical : Prop := ∀ (bs : List Nat) (v : Val), decode bs = some (v, []) → bs = encode v
+
+/-- witness: `[0xcc, 5]` (5 as a `u8`) decodes to the same value as the canonical `[5]` -/
+theorem decode_accepts_noncanonical :
+    decode [0xcc, 5] = some (.uint 5, []) ∧ encode (.uint 5) = [5] ∧ ¬ DecodeOnlyCanonical := by
+  refine ⟨rfl, by decide, ?_⟩
+  intro h
+  have := h [0xcc, 5] (.uint 5) rfl
+  simp [encode, encodeHead] at this
+
+/-- what does hold in the converse direction: an accepted input whose value re-encodes to it IS the canonical
+encoding — the acceptance rule the correspondence run applies on both sides -/
+theorem canonical_iff (bs : List Nat) (v : Val) (rest : List Nat) (hw : WellFormed v) :
+    (decode bs = some (v, rest) ∧ encode v ++ rest = bs) ↔ bs = encode v ++ rest := by
+  constructor
+  · rintro ⟨_, h⟩; exact h.symm
+  · rintro rfl; exact ⟨SafeNet.MsgPack.decode_encode v rest hw, rfl⟩
+
+/-- **decode_wf**: whatever the decoder accepts from a byte string is a well-formed value — `WellFormed` is exactly
+the decoder's range, so the hypothesis of `decode_encode` loses nothing on the decoding side. -/
+theorem decode_wf (bs : List Nat) (hb : isBytes bs = true) (v : Val) (r : List Nat) (h : decode bs = some (v, r)) :
+    WellFormed v ∧ isBytes r = true :=
+  SafeNet.MsgPack.decode_wf bs hb v r h
+
+/-- **decode_normalises** (the true converse): every accepted input, canonical or not, denotes the same value as the
+canonical encoding of what it decodes to, followed by the same rest. -/
+theorem decode_normalises (bs : List Nat) (hb : isBytes bs = true) (v : Val) (r : List Nat)
+    (h : decode bs = some (v, r)) : decode (encode v ++ r) = some (v, r) :=
+  SafeNet.MsgPack.decode_normalises bs hb v r h
+
+/-- the header decoder likewise admits non-minimal windows for every kind (found by the exhaustive comparison with
+`RecordHeader::from_record`): tag as `u8`, as non-negative `i8`, a 1-byte `bin`, and the struct as a map keyed by index -/
+theorem header_noncanonical_windows (k : RecordKind) (b : Nat) :
+    fromRecord [0x91, 0xcc, serTag k] = some k ∧ fromRecord [0x91, 0xd0, serTag k] = some k ∧
+    fromRecord [0xc4, 1, serTag k] = some k ∧ fromRecord [0x81, 0, serTag k] = some k ∧
+    fromRecord [0x91, serTag k, b] = some k := by
+  cases k <;> simp [fromRecord, headerWindow, headerSize, headerFromWindow, tagKind, deTagBound, deTag, serTag]
+
+/-- **wire_stable**: for EVERY payload the record starts with exactly `[0x91, tag kind]` (the regenerated table)
+and continues with the payload's own encoding; with `tag_values` the first two bytes of every record are fixed. -/
+theorem wire_stable (k : RecordKind) (v : Val) :
+    (trySerializeRecord v k).take headerSize = [0x91, serTag k] ∧
+    (trySerializeRecord v k).drop headerSize = encode v := by
+  have h := header_two_bytes k
+  unfold trySerializeRecord
+  rw [List.take_append_of_le_length (by omega), List.take_of_length_le (by omega),
+    List.drop_append_of_le_length (by omega), List.drop_of_length_le (by omega)]
+  exact ⟨h.1, rfl⟩
+
+/-- all eight prefixes, spelled out over the generated table -/
+theorem wire_prefixes (v : Val) :
+    (trySerializeRecord v .ChunkWithPayment).take 2 = [0x91, 0] ∧ (trySerializeRecord v .Chunk).take 2 = [0x91, 1] ∧
+    (trySerializeRecord v .Transaction).take 2 = [0x91, 2] ∧ (trySerializeRecord v .Register).take 2 = [0x91, 3] ∧
+    (trySerializeRecord v .RegisterWithPayment).take 2 = [0x91, 4] ∧ (trySerializeRecord v .Scratchpad).take 2 = [0x91, 5] ∧
+    (trySerializeRecord v .ScratchpadWithPayment).take 2 = [0x91, 6] ∧
+    (trySerializeRecord v .TransactionWithPayment).take 2 = [0x91, 7] :=
+  ⟨(wire_stable _ v).1, (wire_stable _ v).1, (wire_stable _ v).1, (wire_stable _ v).1, (wire_stable _ v).1,
+   (wire_stable _ v).1, (wire_stable _ v).1, (wire_stable _ v).1⟩
+
 /-! ## non-vacuity -/
+
+example : decode ((encode (.arr [.uint 300, .str [104, 105]])).take 5) = none := by decide
+example : decode [0x92, 0xcd, 0, 7, 0xd9, 1, 65, 9] = some (.arr [.uint 7, .str [65]], [9]) := rfl
+example : encode (.arr [.uint 7, .str [65]]) = [0x92, 7, 0xa1, 65] := by decide
+example : (encode (.arr [.uint 300, .str [104, 105]])).length = 7 := by decide
+example : tryDeserializeRecord ((trySerializeRecord (.bin [1, 2, 3]) .Chunk).take 6) = none := by decide
+example : tryDeserializeRecord (trySerializeRecord (.bin [1, 2, 3]) .Chunk) = some (.bin [1, 2, 3]) := rfl
 
 example : headerBytes .Chunk = [0x91, 1] := rfl
 example : fromRecord [0x91, 0xcc, 5] = some .Scratchpad := by decide
@@ -148,3 +265,16 @@ end SafeNet.Props.C12
 #print axioms SafeNet.Props.C12.record_roundtrip_typed
 #print axioms SafeNet.Props.C12.chunk_addr_recomputed
 #print axioms SafeNet.Props.C12.decode_total
+#print axioms SafeNet.Props.C12.prefix_rejected
+#print axioms SafeNet.Props.C12.truncated_record_rejected
+#print axioms SafeNet.Props.C12.truncated_record_rejected_typed
+#print axioms SafeNet.Props.C12.encode_injective
+#print axioms SafeNet.Props.C12.encode_append_injective
+#print axioms SafeNet.Props.C12.record_bytes_injective
+#print axioms SafeNet.Props.C12.decode_accepts_noncanonical
+#print axioms SafeNet.Props.C12.canonical_iff
+#print axioms SafeNet.Props.C12.decode_wf
+#print axioms SafeNet.Props.C12.decode_normalises
+#print axioms SafeNet.Props.C12.header_noncanonical_windows
+#print axioms SafeNet.Props.C12.wire_stable
+#print axioms SafeNet.Props.C12.wire_prefixes
